@@ -162,6 +162,163 @@ theorem foldl_set_replicate {β : Type} (f : AtomSpec α → β) (atoms : List (
   · cases h : Spec.byId atoms k <;> simp [hk, h]
   · cases h : Spec.byId atoms k <;> simp [hk, h]
 
+/-! ### every successful `readFrame` consumes at least one line: the fuel of `readAll` is adequate -/
+
+theorem readline_le (ls : Lines α) : (readline ls).2.length ≤ ls.length := by
+  cases ls <;> simp [readline]
+
+theorem readBoxRows_le (b : Bool) (k n : Nat) (ls : Lines α) (r : List (List α) × Lines α)
+    (h : readBoxRows b k n ls = .ok r) : r.2.length ≤ ls.length := by
+  induction n generalizing ls r with
+  | zero => simp [readBoxRows] at h; subst h; simp
+  | succ n ih =>
+    unfold readBoxRows at h
+    cases h1 : ((readline ls).1.take k).mapM toFloat with
+    | error e => simp [h1] at h
+    | ok vs =>
+      simp only [h1, ok_bind] at h
+      have key : ∀ (row : Except Err (List α)),
+          (do let row ← row
+              let r ← readBoxRows b k n (readline ls).2
+              Except.ok (row :: r.1, r.2)) = Except.ok r → r.2.length ≤ ls.length := by
+        intro row h
+        cases row with
+        | error e => simp at h
+        | ok row =>
+          simp only [ok_bind] at h
+          cases h3 : readBoxRows b k n (readline ls).2 with
+          | error e => simp [h3] at h
+          | ok r' =>
+            simp only [h3, ok_bind] at h
+            have := ih _ _ h3
+            have h4 := readline_le ls
+            cases h
+            simp; omega
+      split at h
+      · exact key _ h
+      · exact key _ h
+
+theorem readAtoms_le (nd N : Nat) (coords : Line α → Except Err (List α)) (n : Nat) (ls : Lines α) (st : Arrays α)
+    (r : Arrays α × Lines α) (h : readAtoms nd N coords n ls st = .ok r) : r.2.length ≤ ls.length := by
+  induction n generalizing ls st r with
+  | zero => simp [readAtoms] at h; subst h; simp
+  | succ n ih =>
+    unfold readAtoms at h
+    cases h1 : placeLine nd N coords (readline ls).1 st with
+    | error e => simp [h1] at h
+    | ok st' =>
+      simp only [h1, ok_bind] at h
+      have := ih _ _ _ h
+      have h4 := readline_le ls
+      omega
+
+theorem readOrth_le (nd : Nat) (ts : Int) (N : Nat) (ls : Lines α) (x : Frame α × Lines α)
+    (h : readOrth nd ts N ls = .ok (some x)) : x.2.length ≤ ls.length := by
+  unfold readOrth at h
+  cases h1 : readBoxRows true 2 nd ls with
+  | error e => simp [h1] at h
+  | ok bb =>
+    simp only [h1, ok_bind] at h
+    have hb := readBoxRows_le _ _ _ _ _ h1
+    have hd : (List.drop (3 - nd) bb.2).length ≤ ls.length := by simp; omega
+    have hl := readline_le (List.drop (3 - nd) bb.2)
+    split at h
+    · cases h2 : readAtoms nd N (sliceFloats nd) N (readline (List.drop (3 - nd) bb.2)).2 (zeros nd N) with
+      | error e => simp [h2] at h
+      | ok r =>
+        simp only [h2, ok_bind] at h
+        have := readAtoms_le _ _ _ _ _ _ _ h2
+        split at h <;> (cases h; simp; omega)
+    · split at h
+      · cases h2 : readAtoms nd N (scaledOrth nd (subList (col 1 bb.1) (col 0 bb.1)) (col 0 bb.1)) N
+            (readline (List.drop (3 - nd) bb.2)).2 (zeros nd N) with
+        | error e => simp [h2] at h
+        | ok r =>
+          simp only [h2, ok_bind] at h
+          have := readAtoms_le _ _ _ _ _ _ _ h2
+          cases h; simp; omega
+      · cases h; simp; omega
+
+theorem bind_fin_le {F : Type} (x : Except Err (Arrays α × Lines α)) (bound : Nat)
+    (hx : ∀ r, x = .ok r → r.2.length ≤ bound) (mk : Arrays α × Lines α → F) (y : F × Lines α)
+    (h : (do let r ← x; (Except.ok (some (mk r, r.2)) : Except Err (Option (F × Lines α)))) = .ok (some y)) :
+    y.2.length ≤ bound := by
+  cases x with
+  | error e => simp at h
+  | ok r =>
+    simp only [ok_bind] at h
+    cases h
+    exact hx r rfl
+
+theorem readTric_le (nd : Nat) (ts : Int) (N : Nat) (ls : Lines α) (x : Frame α × Lines α)
+    (h : readTric nd ts N ls = .ok (some x)) : x.2.length ≤ ls.length := by
+  unfold readTric at h
+  cases h1 : readBoxRows true 3 nd ls with
+  | error e => simp [h1] at h
+  | ok b0 =>
+    simp only [h1, ok_bind] at h
+    have hb0 := readBoxRows_le _ _ _ _ _ h1
+    cases h2 : readBoxRows false 3 (3 - nd) b0.2 with
+    | error e => simp [h2] at h
+    | ok b1 =>
+      simp only [h2, ok_bind] at h
+      have hb1 := readBoxRows_le _ _ _ _ _ h2
+      have hl := readline_le b1.2
+      split at h
+      · refine bind_fin_le _ _ (fun r hr => ?_) _ _ h
+        have := readAtoms_le _ _ _ _ _ _ _ hr
+        omega
+      · split at h
+        · split at h
+          · refine bind_fin_le _ _ (fun r hr => ?_) _ _ h
+            have := readAtoms_le _ _ _ _ _ _ _ hr
+            omega
+          · cases h
+        · cases h; simp; omega
+
+theorem readFrame_lt (nd : Nat) (ls : Lines α) (x : Frame α × Lines α)
+    (h : readFrame nd ls = .ok (some x)) : x.2.length < ls.length := by
+  cases ls with
+  | nil => simp [readFrame] at h
+  | cons l ls =>
+    unfold readFrame at h
+    cases h1 : pyInt (readline ls).1 with
+    | error e => simp [h1] at h
+    | ok ts =>
+      simp only [h1, ok_bind] at h
+      cases h2 : pyInt (readline (readline (readline ls).2).2).1 with
+      | error e => simp [h2] at h
+      | ok n =>
+        simp only [h2, ok_bind] at h
+        have e1 := readline_le ls
+        have e2 := readline_le (readline ls).2
+        have e3 := readline_le (readline (readline ls).2).2
+        have e4 := readline_le (readline (readline (readline ls).2).2).2
+        split at h
+        · cases h
+        · split at h
+          · have := readTric_le _ _ _ _ _ h
+            simp; omega
+          · have := readOrth_le _ _ _ _ _ h
+            simp; omega
+
+theorem readAllFuel_irrelevant (nd : Nat) (a b : Nat) (ls : Lines α) (ha : ls.length < a) (hb : ls.length < b) :
+    readAllFuel nd a ls = readAllFuel nd b ls := by
+  induction a generalizing b ls with
+  | zero => omega
+  | succ a ih =>
+    obtain ⟨b, rfl⟩ : ∃ k, b = k + 1 := ⟨b - 1, by omega⟩
+    unfold readAllFuel
+    cases h : readFrame nd ls with
+    | error e => rfl
+    | ok o =>
+      cases o with
+      | none => rfl
+      | some x =>
+        have := readFrame_lt nd ls x h
+        simp only [ok_bind]
+        rw [ih b x.2 (by omega) (by omega)]
+
 end generic
 
 /-! ### over an ordered field -/
